@@ -71,9 +71,12 @@ func (s *Service) Attest(ctx context.Context, duty *attester.Duty) ([]*phase0.At
 	}
 
 	// Set the per-validator information.
+	// The map holds positions in the duty's own (unfiltered) arrays.
 	validatorIndexToArrayIndexMap := make(map[phase0.ValidatorIndex]int)
-	for i, index := range validatorIndices {
-		validatorIndexToArrayIndexMap[index] = i
+	for i, index := range duty.ValidatorIndices() {
+		if _, exists := validatorIndexToArrayIndexMap[index]; !exists {
+			validatorIndexToArrayIndexMap[index] = i
+		}
 	}
 	committeeIndices := make([]phase0.CommitteeIndex, len(validatingAccounts))
 	validatorCommitteeIndices := make([]phase0.ValidatorIndex, len(validatingAccounts))
